@@ -258,9 +258,9 @@ _dispatch_unote_register_muxed(dispatch_unote_t du)
 {
 	struct dispatch_muxnote_bucket_s *dmb;
 	dispatch_muxnote_t dmn;
-	uint32_t events;
+	uint32_t events, du_events;
 
-	events = _dispatch_unote_required_events(du);
+	du_events = events = _dispatch_unote_required_events(du);
 
 	dmb = _dispatch_unote_muxnote_bucket(du);
 	dmn = _dispatch_unote_muxnote_find(dmb, du);
@@ -288,7 +288,9 @@ _dispatch_unote_register_muxed(dispatch_unote_t du)
 
 	if (dmn) {
 		dispatch_unote_linkage_t dul = _dispatch_unote_get_linkage(du);
-		if (events & EPOLLOUT) {
+		// `events` may by now include what the other unotes of the muxnote
+		// have armed: file the unote by what it asked for itself
+		if (du_events & EPOLLOUT) {
 			LIST_INSERT_HEAD(&dmn->dmn_writers_head, dul, du_link);
 		} else {
 			LIST_INSERT_HEAD(&dmn->dmn_readers_head, dul, du_link);
